@@ -89,9 +89,12 @@ def replay(ctx, rep):
         import json
         from harness import race_driver
         n0 = len(ctx.violations) + len(ctx.known_hit)
-        race_driver.run_chunk(ctx, 'wf', [r['scenario']], [r['interferer']])
+        if r.get('family') == 'action':
+            race_driver.run_chunk(ctx, 'action')
+        else:
+            race_driver.run_chunk(ctx, 'wf', [r['scenario']], [r['interferer']])
         print('replay: %s x %s at every gap -> %d hit(s); recorded: position %s (%s)' % (
-            r['scenario'], r['interferer'], len(ctx.violations) + len(ctx.known_hit) - n0,
+            r.get('scenario', r.get('script')), r['interferer'], len(ctx.violations) + len(ctx.known_hit) - n0,
             r.get('position'), r.get('statement')))
         for v in ctx.violations:
             print('  ', v['what'][:300], json.dumps(v['signature']))
